@@ -75,8 +75,15 @@ claim("C12",
       "Trusted: rustc MIR; parking_lot Mutex. Not decided (the bulk of the property): true distances, metric ordering, recall floors and margins, graph repair quality.",
       "CFG ordering and Ok/Err/bool-edge reachability, guard-liveness dataflow incl. helper-caller check, must-pass-through of truncate(top_k)", "DESIGN §4 C12")
 
+claim("C14",
+      "Decides, over the whole call graph, that every RPC method the service labels Read (cancellable) reaches no backend write, index mutation, engine/handle mutator or AppState mutator "
+      "(method/effect table and dispatch arms both extracted from the code; one shape-checked exception: the detached cold-open task), that authorization dominates parsing and dispatch, that the "
+      "authorized scope and the dispatched database are the same value, that handler modules cannot see server state, and that refusals are uniform and registry-independent.",
+      "Trusted: rustc MIR and callee resolution (dyn/generic calls over-approximated); axum layer ordering; tokio::spawn detaches. Not decided: the full request matrix, key-change histories, timing.",
+      "call-graph effect reachability per dispatch arm (table agreement), dominance on Ok edges, def-use slicing of the scope/database operands, signature scan", "DESIGN §4 C14")
+
 _pending = "rules for this property are not built yet in this round (see DESIGN §10 order of work); not claimed until they are"
-for pid in ["C13", "C14", "C15", "C16", "C17", "C18", "C19"]:
+for pid in ["C13", "C15", "C16", "C17", "C18", "C19"]:
     NA[pid] = _pending
 NA["C20"] = ("every clause is an algebraic law over runtime multisets of assertions (permutation invariance, monotone score fold, thresholds); "
              "no clause is visible in the shape of the code, so static analysis cannot decide it (DESIGN §6)")
